@@ -25,9 +25,48 @@ ALPHABET = (["add_species", "add_reaction", "add_reaction", "create_parameter", 
              "restart_pickle", "restart_pickle", "restart_pickle", "restart_copy", "restart_copy", "restart_copy"])
 
 
+def gen_lineage_case(case_seed, r):
+    from simkit import lineage_engine as le
+    lm = le.gen_lineage_model(r, absorb=r.random() < 0.2)
+    # keep lineages small: the restart comparison simulates the whole lineage several times
+    lm["npts"] = min(lm["npts"], 17)
+    if lm["splitter"]["kind"] != "lineage":
+        sp = lm["model"]["species"]
+        vmode = r.choice(["binomial", "binomial", "perfect"])
+        lm["splitter"] = {"kind": "lineage", "options": dict({s: r.choice(le.MODES) for s in sp}, volume=vmode),
+                          "noise": r.choice([0.0, 0.2, 0.5])}
+    # named parameters so that value edits have something to act on
+    if not lm["model"]["params"]:
+        rx = lm["model"]["reactions"][0]
+        if rx["type"] == "massaction" and not isinstance(rx["pd"]["k"], str):
+            lm["model"]["params"]["kx"] = rx["pd"]["k"]
+            rx["pd"]["k"] = "kx"
+    ops = []
+    for _ in range(r.choice([2, 3, 5, 8])):
+        u = r.random()
+        if u < 0.2:
+            ops.append(["simulate", r.getrandbits(48) | 1, r.random() < 0.3])
+        elif u < 0.3:
+            ops.append(["initialize"])
+        elif u < 0.4:
+            ops.append(["set_parameter", r.randrange(8), r.choice([0.1, 0.5, 1.5, 3.0])])
+        elif u < 0.5:
+            ops.append(["set_species", r.randrange(8), r.choice([0, 1, 4, 9])])
+        elif u < 0.8:
+            ops.append(["restart_pickle", r.choice([2, 3, 4, 5]), r.choice(["set_parameter", "none"]), r.choice(["original", "restored"])])
+        else:
+            ops.append(["restart_deepcopy", 0, r.choice(["set_parameter", "none"]), r.choice(["original", "restored"])])
+    if not any(o[0].startswith("restart") for o in ops):
+        ops.append(["restart_pickle", 4, "set_parameter", "restored"])
+    ops.append(["simulate", r.getrandbits(48) | 1, False])
+    return {"stratum": "lineage", "lm": lm, "ops": ops, "pseed": seeds.derive(case_seed, "p"), "base": lm["model"]}
+
+
 def gen_case(case_seed, cfg):
     r = seeds.rng(case_seed, "c17")
-    kind = "lineage" if r.random() < cfg.get("lineage_share", 0.0) else "plain"
+    kind = "lineage" if r.random() < cfg.get("lineage_share", 0.25) else "plain"
+    if kind == "lineage":
+        return gen_lineage_case(case_seed, r)
     n_ops = r.choice([2, 4, 6, 10, 16, 24])
     base, ops = history.gen_history(r, n_ops, ALPHABET)
     if not any(o[0].startswith("restart") for o in ops):
@@ -36,6 +75,19 @@ def gen_case(case_seed, cfg):
 
 
 def run_case(case):
+    if case.get("stratum") == "lineage":
+        from simkit import lineage_engine as le
+        stats = {"stratum_lineage": 1}
+        viols, dg = le.run_model_restart_case(case, stats)
+        lm = case["lm"]
+        stats["lin_div_" + lm["division"]["kind"]] = 1
+        stats["lin_growth_" + lm["growth"]["kind"]] = 1
+        if lm.get("death"):
+            stats["lin_death_" + lm["death"]["kind"]] = 1
+        return {"violations": viols, "stats": stats,
+                "sig": repr(("lineage", lm["division"]["kind"], lm["growth"]["kind"], [o[0] for o in case["ops"]],
+                             lm["model"]["reactions"]))[:600],
+                "nontrivial": True, "digest": dg, "sim_time": 0.0}
     out = c08.run_case(case)
     kinds = [o[0] for o in case["ops"]]
     out["nontrivial"] = any(k.startswith("restart") for k in kinds)
@@ -48,15 +100,42 @@ def run_case(case):
 
 
 crash_signature = c08.crash_signature
-shrink = c08.shrink
-sample = c08.sample
+
+
+def shrink(case):
+    if case.get("stratum") == "lineage":
+        ops = case["ops"]
+        for i in range(len(ops)):
+            if len(ops) > 1:
+                yield dict(case, ops=ops[:i] + ops[i + 1:])
+        lm = case["lm"]
+        if lm.get("death"):
+            yield dict(case, lm=dict(lm, death=None))
+        if lm.get("division2"):
+            yield dict(case, lm=dict(lm, division2=None, splitter2=None))
+        m = lm["model"]
+        for i in range(len(m["reactions"])):
+            if len(m["reactions"]) > 1:
+                yield dict(case, lm=dict(lm, model=dict(m, reactions=m["reactions"][:i] + m["reactions"][i + 1:])))
+        return
+    yield from c08.shrink(case)
+
+
+def sample(case, res):
+    if case.get("stratum") == "lineage":
+        lm = case["lm"]
+        return {"stratum": "lineage", "growth": lm["growth"], "division": lm["division"], "death": lm["death"],
+                "splitter": lm["splitter"], "ops": case["ops"]}
+    return c08.sample(case, res)
 
 
 def reach_warnings(stats):
     out = []
     for k in ("restarts", "op_restart_pickle", "op_restart_deepcopy", "independence_checks", "stochastic_forms_compared",
               "restart_seeded_comparisons", "ptype_massaction", "ptype_general", "ptype_hillpositive", "ptype_hillnegative",
-              "ptype_proportionalhillpositive", "ptype_proportionalhillnegative", "dtype_fixed", "dtype_gaussian", "dtype_gamma"):
+              "ptype_proportionalhillpositive", "ptype_proportionalhillnegative", "dtype_fixed", "dtype_gaussian", "dtype_gamma",
+              "stratum_lineage", "result_pickles", "cell_state_pickles", "lin_div_rule_time", "lin_div_event", "lin_growth_rule_linear",
+              "lin_growth_event_general", "lin_death_event", "lin_death_rule_species"):
         if stats.get(k, 0) == 0:
             out.append(f"kind {k} never fired in this batch")
     return out
